@@ -41,6 +41,11 @@ type Mod struct {
 	Seq   int
 	Conn  int // writer connection id, -1 for ghost/expiry
 	Flush bool
+	// State of the key right after the modification (db of the writer; db 0 for ghost writers and expiry).
+	Present  bool      // the key exists
+	Str      string    // its value when it is a string
+	ExpireAt time.Time // its expiry (zero = none)
+	At       time.Time // model clock at the modification
 }
 
 func newDataset() *Dataset {
@@ -154,7 +159,14 @@ func (d *Dataset) touch(w *World, sc *SrvConn, k string) {
 		id = sc.ID
 	}
 	w.seq++
-	d.Mods = append(d.Mods, Mod{Key: k, Epoch: d.Epoch[k], Step: w.Step, Seq: w.seq, Conn: id})
+	mod := Mod{Key: k, Epoch: d.Epoch[k], Step: w.Step, Seq: w.seq, Conn: id, At: w.Now()}
+	if en := d.db(dbOf(sc))[k]; en != nil {
+		mod.Present, mod.ExpireAt = true, en.expireAt
+		if en.typ == "string" {
+			mod.Str = en.str
+		}
+	}
+	d.Mods = append(d.Mods, mod)
 	// default / OPTIN / OPTOUT mode: connections remembered for this key
 	if cs := d.tracked[k]; len(cs) > 0 {
 		delete(d.tracked, k)
